@@ -5,7 +5,7 @@
    Result encoding: 0 :: values, [1; exn code], [3] = outside the model's domain (the UTC instant of an aware operand is not
    representable: CPython raises OverflowError when it shifts), [9] bad call. *)
 From Coq Require Import ZArith List Bool.
-From PV Require Import Lib.PyBase Spec.Cal Gen.Constants Gen.Helpers Model.PdBase Gen.PreciseDiff Model.RustPreciseDiff Model.PdInterval Model.PdHistory.
+From PV Require Import Lib.PyBase Spec.Cal Gen.Constants Gen.Helpers Model.PdBase Gen.PreciseDiff Model.RustPreciseDiff Model.PdInterval Model.PdHistory Model.PdForeign.
 Import ListNotations.
 Open Scope Z_scope.
 
@@ -39,5 +39,12 @@ Definition dispatch (fn : Z) (args : list Z) : list Z :=
       of_dt (pd_add_duration a yy mo ww dd hh mi ss us)
   | 9 (* py_history *), a => dispatch_history false a
   | 10 (* rs_history *), a => dispatch_history true a
+  | 11 (* py_rebuild_fs *), [y1;m1;d1;h1;i1;s1;u1;o1;t1;n1;b1;k1; y2;m2;d2;h2;i2;s2;u2;o2;t2;n2;b2;k2] =>
+      (* a + (b - a) when the start carries a tzinfo that is not a pendulum class (Model/PdForeign.v) *)
+      let a := mkpdt y1 m1 d1 h1 i1 s1 u1 o1 (zb t1) n1 b1 (zb k1) in let b := mkpdt y2 m2 d2 h2 i2 s2 u2 o2 (zb t2) n2 b2 (zb k2) in
+      guard a b (of_dt (rebuild_of_foreign (py_pd a b) a b))
+  | 12 (* rs_rebuild_fs *), [y1;m1;d1;h1;i1;s1;u1;o1;t1;n1;b1;k1; y2;m2;d2;h2;i2;s2;u2;o2;t2;n2;b2;k2] =>
+      let a := mkpdt y1 m1 d1 h1 i1 s1 u1 o1 (zb t1) n1 b1 (zb k1) in let b := mkpdt y2 m2 d2 h2 i2 s2 u2 o2 (zb t2) n2 b2 (zb k2) in
+      guard a b (of_dt (rebuild_of_foreign (rs_pd a b) a b))
   | _, _ => [9]
   end.
